@@ -68,7 +68,64 @@ def _gen_big(r):
     return {'check': ID, 'workload': w, 'config': conf, 'only_k': ks, 'big': True}
 
 
+def systematic(tier):
+    """Prefixes of encodings too long to build: a plain OCTET STRING (alone, or as the last component of a
+    SEQUENCE) whose length field declares 16 MiB .. 1 TiB, of which only the header and a few content octets
+    exist.  Such an encoding is valid by construction (any content of that length will do), so every prefix
+    is truncated input."""
+    out = []
+    lengths = [1 << 24, (1 << 27) - 1, 1 << 27, (1 << 27) + 1, (1 << 31) - 1, 1 << 31, 1 << 32, 1 << 40]
+    if tier == 'quick':
+        lengths = [(1 << 27) + 1, 1 << 31, 1 << 40]
+    for n in lengths:
+        for wrapped in (False, True):
+            out.append({'check': ID, 'virtual': {'length': n, 'wrapped': wrapped, 'have': [0, 1, 100]},
+                        'config': {'stream_kind': 'file', 'threshold': None, 'chunks': [400], 'open_polls': 1,
+                                   'poll_each_chunk': False}})
+    return out
+
+
+def _execute_virtual(plan):
+    from pyasn1.codec.ber import decoder as dec
+    from simkit.corrupt import _enc_len
+    v = plan['virtual']
+    header = b'\x04' + bytes.fromhex(_enc_len(v['length']))
+    spec = U.p.univ.OctetString()
+    if v['wrapped']:
+        inner = b'\x02\x01\x05' + header
+        header = b'\x30' + bytes.fromhex(_enc_len(3 + len(header) + v['length'])) + inner
+        spec = None
+    ctr = {'probe.virtual_huge_element': 0}
+    trace = []
+    sites = set()
+
+    class _Wl(object):
+        pass
+    wl = _Wl()
+    wl.dec_mod, wl.spec, wl.dec_kw = dec, spec, {}
+    evals = 0
+    try:
+        for have in v['have']:
+            prefix = header + b'\x5a' * have
+            for k in sorted(set([len(prefix), len(header), max(1, len(header) - 1)])):
+                if k > len(prefix):
+                    continue
+                evals += _check_cut(wl, prefix, k, plan['config'], trace, ctr, sites, plan.get('only_pres'))
+                ctr['probe.virtual_huge_element'] += 1
+    except W.Violation as viol:
+        viol.detail['declared_length'] = v['length']
+        sig = [viol.invariant, viol.detail.get('presentation'), viol.detail.get('exc_cls'), viol.detail.get('site')]
+        res = common.violation_result(viol, sig, trace, ctr, None, None, {'kind': 'file'}, None)
+        res['evals'] = evals
+        return res
+    res = common.ok_result(trace, ctr, None, True)
+    res['evals'] = evals
+    return res
+
+
 def execute(plan):
+    if plan.get('virtual'):
+        return _execute_virtual(plan)
     conf = plan['config']
     try:
         wl = W.Workload(plan['workload'])
@@ -139,7 +196,7 @@ def _expect_underrun_error(fn, pres, k):
         raise W.Violation('truncation-reported-as-other-error', presentation=pres,
                           exc_cls=d['cls'], msg=d['msg'], site=d['site'])
     raise W.Violation('truncated-input-returned-value', presentation=pres,
-                      value=repr(out)[:200])
+                      value=U.safe_repr(out, 200))
 
 
 def _check_cut(wl, e, k, conf, trace, ctr, sites, only_pres):
@@ -183,7 +240,7 @@ def _check_streaming(wl, prefix, k, conf, trace, ctr, sites):
             raise W.Violation('open-stream-error-instead-of-underrun', presentation=pres, where=where,
                               exc_cls=d['cls'], msg=d['msg'], site=d['site'])
         raise W.Violation('open-stream-%s-instead-of-underrun' % kind.lower(), presentation=pres, where=where,
-                          value=repr(payload)[:120])
+                          value=U.safe_repr(payload, 120))
 
     chunks = conf['chunks']
     d = 0
@@ -227,7 +284,7 @@ def _check_streaming(wl, prefix, k, conf, trace, ctr, sites):
         if kind == W.UNDERRUN:
             continue
         raise W.Violation('closed-stream-%s-instead-of-end-of-stream' % kind.lower(), presentation=pres,
-                          value=repr(payload)[:120])
+                          value=U.safe_repr(payload, 120))
     else:
         raise W.Violation('closed-stream-no-end-of-stream-error', presentation=pres,
                           residual=k - (st.position() if hasattr(st, 'position') else 0))
@@ -239,6 +296,13 @@ def _check_streaming(wl, prefix, k, conf, trace, ctr, sites):
 
 
 def shrink_candidates(plan, detail=None):
+    if plan.get('virtual'):
+        return
+    for c in _shrink_candidates(plan, detail):
+        yield c
+
+
+def _shrink_candidates(plan, detail=None):
     # 1. a single cut point
     if plan.get('only_k') is None:
         ks = list(range(0, MAX_LEN))
